@@ -3,6 +3,7 @@ package main
 import (
 	"bytes"
 	"fmt"
+	"os"
 	"sync"
 	"time"
 
@@ -395,6 +396,42 @@ func runC08(c *Ctx) error {
 				}
 				_ = tap3.Close()
 				c.count(tag3, true, "kind=fault-inside-frame")
+			}
+			// a streamed send of several frames over a transport whose k-th frame write fails ONCE (an expired write deadline
+			// that another goroutine then extends, a transient error) while later writes would succeed: success is reported
+			// iff the whole message is on the wire
+			for k := 0; k < 4; k++ {
+				conn5, tap5, err := spec.open(&recHandler{})
+				if err != nil {
+					return err
+				}
+				data := randBytes(c.Rng, 5*131072+777) // incompressible: at least five segments either way
+				tap5.mu.Lock()
+				tap5.failWrite = tap5.nWrite + k
+				tap5.writeErr = os.ErrDeadlineExceeded
+				tap5.mu.Unlock()
+				nb := tap5.numWrites()
+				res := rawSend(conn5, sendOp{API: "file", Opcode: 2, Reader: newChunkReader(splitEven(data, 3), "sep")})
+				tag5 := fmt.Sprintf("streamed send, frame write #%d fails once server=%v pmd=%v result=%d", k, server, pmd, res)
+				if res == 0 {
+					var wire []byte
+					for _, w := range tap5.writeCalls()[nb:] {
+						wire = append(wire, w...)
+					}
+					rx := &rfcReceiver{server: server}
+					msgs, problem := rx.receive(wire)
+					var dataMsgs []wireMsg
+					for _, m := range msgs {
+						if m.Opcode < 8 {
+							dataMsgs = append(dataMsgs, m)
+						}
+					}
+					if problem != "" || len(dataMsgs) != 1 || !bytes.Equal(dataMsgs[0].Payload, data) {
+						c.oracleFail(fmt.Sprintf("WriteFile reported success although one of its frame writes failed; the wire does not hold the message (%s, %d data messages) [%s]", problem, len(dataMsgs), tag5), "success-not-once", map[string]any{"tag": tag5})
+					}
+				}
+				_ = tap5.Close()
+				c.count(tag5, true, "kind=stream-transient-fault")
 			}
 			// a reader that returns its last bytes TOGETHER with io.EOF (gzip/flate readers, HTTP bodies, iotest.DataErrReader)
 			for _, sizes := range [][]int{{1}, {1000, 500}, {131072, 7}, {131072, 131072, 1}} {
